@@ -48,9 +48,9 @@ template<class T, size_t D> struct MdCase {
     std::string family;
 };
 
-template<uint8_t D, class T, size_t Eps, size_t EpsRec>
+template<uint8_t D, class T, size_t Eps, size_t EpsRec, class Floating = float>
 void md_case(Ctx &c) {
-    using Idx = pgm::MultidimensionalPGMIndex<D, T, Eps, EpsRec>;
+    using Idx = pgm::MultidimensionalPGMIndex<D, T, Eps, EpsRec, Floating>;
     using P = Pt<T, D>;
     constexpr size_t fb = std::numeric_limits<T>::digits / D;
     const T maxc = T((T(1) << (fb - 1)) - 1); // largest coordinate the encoder accepts
@@ -342,6 +342,8 @@ void md_case(Ctx &c) {
     if (c.want_sample()) c.sample(J().num("n", n).num("boxes", boxes_judged).num("skip_eligible_runs", skip_runs));
 }
 
+#define VF_MD_F(D, T, E, ER, F)                                                                                        \
+    VF_REGISTER(std::string("md/d" #D ",") + ::vf::KT<T>::name() + ",e" #E ",er" #ER "," #F, (&::vf::md_case<D, T, E, ER, F>), 1.0)
 #define VF_MD(D, T, E, ER)                                                                                             \
     VF_REGISTER(std::string("md/d" #D ",") + ::vf::KT<T>::name() + ",e" #E ",er" #ER, (&::vf::md_case<D, T, E, ER>), 1.0)
 
